@@ -216,6 +216,11 @@ func (f *FnEnc) doIndexAddr(x *ssa.IndexAddr) {
 	switch xt := x.X.Type().Underlying().(type) {
 	case *types.Slice:
 		sv := f.val(x.X).T
+		if f.val(x.X).S == "BS" {
+			f.oblige("safe", "index", f.autoTags(), fmt.Sprintf("(and (<= 0 %s) (< %s (blen (bs.val %s))))", idx, idx, sv), "")
+			f.addrs[x] = &Addr{Kind: akByteAt, Typ: xt.Elem(), elemT: xt.Elem()}
+			return
+		}
 		f.oblige("safe", "index", f.autoTags(), fmt.Sprintf("(and (<= 0 %s) (< %s (sl.len %s)))", idx, idx, sv), "")
 		a := &Addr{Kind: akElem, Arr: fmt.Sprintf("(sl.arr %s)", sv), Idx: f.def("idx", "Int", fmt.Sprintf("(+ (sl.off %s) %s)", sv, idx)),
 			ArrComp: f.e.reg.arrComp(xt.Elem()), Typ: xt.Elem(), elemT: xt.Elem()}
